@@ -459,6 +459,13 @@ def builtin_method(ex, st, obj, mname, args, kwargs, cx, node, k):
         if mname == 'decode' and t in (T.BYTEARRAY, T.BYTES):
             # the latin-1 text of a byte string is used only as the data of IntelHex.puts: it stands for the bytes themselves
             return k(st, obj)
+        if mname == 'extend' and args[0].ty.kind == 'opt' and args[0].ty.args[0].kind == 'list':
+            # extending by None raises TypeError
+            o_ = args[0]
+            inner_ = SV(o_.ty.args[0], o_.z)
+            return ex.guard_raise(st, cx, o_.z == 0, 'TypeError', node,
+                                  lambda s_: builtin_method(ex, s_, obj, mname, [inner_] + list(args[1:]), kwargs, cx, node, k),
+                                  why='extend(None)')
         if mname == 'extend':
             o = args[0]
             on, oat0 = ex.seq_view(st, o)
